@@ -148,6 +148,9 @@ def main(argv=None):
     # canary: a deliberately false obligation must be refuted by the same machinery
     jobs = list(jobs) + [Job("pyvc.run", "canary_job")]
     outs = run_jobs(jobs, timeout_ms)
+    if os.environ.get("PYVC_JOB_TIMES"):
+        for o in sorted(outs, key=lambda o: -o.get("wall", 0))[:12]:
+            print("JOB-TIME %.1fs %s" % (o.get("wall", 0), o["job"][:160]))
     canary_ok = False
     for o in outs:
         if o["error"]:
